@@ -112,6 +112,34 @@ class HeapInterp(Interp):
                 obj = z3.If(ismin[k], bv(k), obj)
                 n = z3.If(ismin[k], st.n[k], n)
             return Struct('Option', [some, Ref((('val', Struct('TreeEntry', [obj, n])), []))])
+        if re.match(r"^BTreeSet::<TreeEntry<T>>::(pop_first|pop_last|first|last)$", fname):
+            # minimum / maximum by Ord of TreeEntry = (n, obj); pop_* removes it. Same contract as iter().next() above.
+            st = self.read_ref(a[0])
+            want_min = fname.endswith('first')
+
+            def lt(i, j):
+                return z3.Or(z3.ULT(st.n[i], st.n[j]), z3.And(st.n[i] == st.n[j], i < j))
+            isext = [z3.And(st.present[k], z3.And([z3.Or(z3.Not(st.present[j]), lt(k, j) if want_min else lt(j, k)) for j in range(K_) if j != k])) for k in range(K_)]
+            some = z3.Or(st.present)
+            obj = bv(K_ - 1)
+            n = st.n[K_ - 1]
+            for k in range(K_ - 2, -1, -1):
+                obj = z3.If(isext[k], bv(k), obj)
+                n = z3.If(isext[k], st.n[k], n)
+            if 'pop_' in fname:
+                self.write_ref(a[0], SetObj(K_, [z3.And(st.present[k], z3.Not(isext[k])) for k in range(K_)], st.n))
+                return Struct('Option', [some, Struct('TreeEntry', [obj, n])])
+            return Struct('Option', [some, Ref((('val', Struct('TreeEntry', [obj, n])), []))])
+        if fname == 'BTreeSet::<TreeEntry<T>>::len':
+            st = self.read_ref(a[0])
+            return z3.Sum([z3.If(p_, bv(1), bv(0)) for p_ in st.present])
+        if fname == 'BTreeSet::<TreeEntry<T>>::is_empty':
+            st = self.read_ref(a[0])
+            return z3.Not(z3.Or(st.present))
+        if fname == 'HashMap::<Rc<T>, usize>::contains_key::<Rc<T>>':
+            m = self.read_ref(a[0])
+            key = self.deref_val(a[1])
+            return z3.Or([z3.And(key == k, m.present[k]) for k in range(K_)])
         if fname.startswith('std::option::Option::<&TreeEntry<T>>::unwrap'):
             o = a[0]
             bad = z3.simplify(z3.And(self.cur_pc, z3.Not(o.fields[0])))
